@@ -10,7 +10,11 @@
 (*                        operation of this very call fail; exp (optional): the expiry time     *)
 (*                        (unix seconds) the create response acknowledged, 0 = none             *)
 (*   Call [p, op = "Delete", c, id]  /  Ret [p, op = "Delete", ok]                             *)
-(*   Call [p, op = "Update", id, st] /  Ret [p, op = "Update", ok]   st = inactive | expired   *)
+(*   Call [p, op = "Update", id, st] /  Ret [p, op = "Update", ok]   st = the ONE changed      *)
+(*                        field: inactive | expired (status / expiry), target | desc | created, *)
+(*                        client | sub | base | full (immutable ones, colliding values).        *)
+(*                        Whatever an update answers, it never changes who owns which name:     *)
+(*                        judged by routing (WrongOwner), Claimable and the Final clauses       *)
 (*   Call [p, op = "List", c]       /  Ret [p, op = "List", ok]     (the client lists its mappings) *)
 (*   Call [p, op = "Lookup", host, name, sp, now]  a request with Host header `host`; name =   *)
 (*                        the canonical domain that spelling denotes ("" if it is not a domain  *)
@@ -48,7 +52,8 @@ MayBeDeletedBefore(t, x) == \E d \in OwnerDels(t) : d.call < x
 \* an owner delete of t ran wholly after the create returned and has returned success before line x
 SurelyDeletedBefore(t, x) == \E d \in OwnerDels(t) : d.ok /\ d.ret # 0 /\ d.ret < x /\ d.call > cr[t].ret
 SurelyRolledBackBefore(t, x) == cr[t].ret # 0 /\ ~cr[t].ok /\ cr[t].ret < x
-DeactivatedBefore(t, x) == {u \in up : cr[t].ok /\ u.id = cr[t].id /\ u.ok /\ u.ret # 0 /\ u.ret < x}
+\* (an Update changes one field: st names it; only "inactive" / "expired" take the mapping out of service)
+DeactivatedBefore(t, x) == {u \in up : cr[t].ok /\ u.id = cr[t].id /\ u.st \in {"inactive", "expired"} /\ u.ok /\ u.ret # 0 /\ u.ret < x}
 LiveLegacy(n) == {x \in DOMAIN leg : leg[x].name = n /\ leg[x].del = 0}
 
 TrCall ==
@@ -177,6 +182,9 @@ FinalViol(e) ==
   IN (IF \E x \in idx : ~\E r \in recs : r[1] = x[2] /\ r[3] = x[1] THEN {V("Final", "index-without-record")} ELSE {})
      \cup (IF \E t \in untouched : ~\E r \in recs : r[1] = cr[t].id /\ r[2] = cr[t].c /\ r[3] = cr[t].name /\ r[4] = t
            THEN {V("Final", "live-mapping:no-record")} ELSE {})
+     \* the record of a mapping still carries the client and the name it was created with, whatever was updated
+     \cup (IF \E t \in okT : \E r \in recs : r[1] = cr[t].id /\ (r[2] # cr[t].c \/ r[3] # cr[t].name)
+           THEN {V("UpdateClaimsNothing", "record-relabelled")} ELSE {})
      \cup (IF \E t \in untouched : <<cr[t].name, cr[t].id>> \notin idx THEN {V("Final", "live-mapping:not-indexed")} ELSE {})
      \cup (IF \E t \in untouched : <<cr[t].c, cr[t].id>> \notin lst THEN {V("Final", "live-mapping:not-listed")} ELSE {})
      \cup (IF \E t \in gone : <<cr[t].name, cr[t].id>> \in idx THEN {V("Final", "deleted:still-indexed")} ELSE {})
